@@ -1,5 +1,85 @@
 import Capella.Lemmas.Index
+
+/-!
+# C03 — UUID and type lookups always agree with the actual model tree
+
+State: `Capella.Index.Loader` — per fragment the pre-order scan of its tree and the three
+hand-maintained indexes. `Consistent f` says: the id index answers exactly like a scan of the tree
+(reserved ids answer "absent") and the type index is exactly the set of typed elements of the tree.
+Every mutation site of the object layer issues instructions of the protocol `Capella.Index.Op`; the
+correspondence run checks after each API step that the implementation's private dictionaries equal
+the model's.
+-/
 namespace Capella.Props.C03
 open Capella.Index
-theorem placeholder_build : True := trivial
+
+/-- Loading (and re-indexing after the root element was replaced on save) establishes consistency,
+whatever the tree looks like. -/
+theorem load_consistent (f f' : Frag) (h : idcacheRebuild f = .ok f') :
+    Consistent f' ∧ f'.tree = f.tree :=
+  rebuild_consistent f f' h
+
+/-- Every instruction of the index protocol — attach+index (create / insert / move in),
+un-index+detach (delete / purge / move out), reserve, un-reserve, rebuild, reorder, root swap —
+keeps every fragment consistent, under the precondition its call site guarantees. -/
+theorem step_keeps_consistent (l l' : Loader) (op : Op)
+    (hc : ∀ f ∈ l, Consistent f) (hw : WFOp l op) (h : step l op = .ok l') :
+    ∀ f ∈ l', Consistent f :=
+  step_consistent l l' op hc hw h
+
+/-- … hence so does every finite history of instructions (any length, any interleaving of kinds). -/
+theorem history_keeps_consistent (ops : List Op) (l l' : Loader)
+    (hc : ∀ f ∈ l, Consistent f) (hw : WFRun l ops) (h : run l ops = .ok l') :
+    ∀ f ∈ l', Consistent f :=
+  run_consistent ops l l' hc hw h
+
+/-- Lookup is sound: whatever `by_uuid` returns is an element of a loaded fragment carrying that id. -/
+theorem lookup_returns_tree_element (l : Loader) (k : String) (n : Nat)
+    (hc : ∀ f ∈ l, Consistent f) (h : lookup l k = .ok n) :
+    ∃ f ∈ l, ∃ e ∈ f.tree, e.nid = n ∧ k ∈ e.ids :=
+  lookup_sound l k n (fun f hf => (hc f hf).1) h
+
+/-- Lookup is complete: with model-wide unique ids, every element of every loaded fragment is
+found under each of its ids, and it is that very element. -/
+theorem lookup_finds_every_element (l : Loader) (k : String)
+    (hc : ∀ f ∈ l, Consistent f) (hu : (allIds l).Nodup)
+    (f : Frag) (hf : f ∈ l) (e : Entry) (he : e ∈ f.tree) (hk : k ∈ e.ids) :
+    lookup l k = .ok e.nid :=
+  lookup_complete l k (fun f hf => (hc f hf).1) hu f hf e he hk
+
+/-- Deleted, purged or never-existing ids fail with KeyError. -/
+theorem lookup_absent_fails (l : Loader) (k : String)
+    (hc : ∀ f ∈ l, Consistent f) (hk : k ∉ allIds l) : lookup l k = .error .keyError :=
+  Capella.Index.lookup_absent l k (fun f hf => (hc f hf).1) hk
+
+/-- The type index of a consistent fragment is exactly the typed elements of its tree. -/
+theorem search_is_scan (f : Frag) (hc : Consistent f) (x : String) (n : Nat) :
+    (x, n) ∈ f.xtc ↔ ∃ e ∈ f.tree, e.xt = some x ∧ e.nid = n :=
+  hc.2 x n
+
+/-- What `LinkAccessor.purge_references` did before the repair — removing an element from the tree
+without un-indexing it — does NOT preserve consistency (the purged element stays resolvable). -/
+theorem detach_without_unindex_breaks :
+    ¬ ∀ (f : Frag) (seg : List Entry), Consistent f → Consistent (detachNoIndex f seg) := by
+  intro h
+  let e : Entry := { nid := 7, ids := ["k"], xt := some "T", href := none }
+  let f : Frag := { name := "m", semantic := true, ignDups := false, tree := [e],
+                    idc := [("k", some 7)], xtc := [("T", 7)], hrefs := [] }
+  have hc : Consistent f := by
+    have := (rebuild_consistent { f with idc := [], xtc := [] } f (by rfl)).1
+    exact this
+  have := (h f [e] hc).1 "k"
+  revert this
+  decide
+
+-- Non-vacuity: a concrete two-step history whose preconditions hold.
+def exE1 : Entry := { nid := 1, ids := ["a"], xt := some "T", href := none }
+def exE2 : Entry := { nid := 2, ids := ["b"], xt := some "U", href := none }
+def exF0 : Frag := { name := "m", semantic := true, ignDups := false, tree := [exE1],
+                     idc := [("a", some 1)], xtc := [("T", 1)], hrefs := [] }
+example :
+    (run [exF0] [.attach 0 1 [exE2], .detach 0 [exE1]]).toOption.map
+        (fun l => l.map (fun f => (f.tree.map (·.nid), f.idc, f.xtc)))
+      = some [([2], [("b", some 2)], [("U", 2)])] := by rfl
+
 end Capella.Props.C03
